@@ -323,6 +323,21 @@ fn model_programs() -> Vec<(String, String)> {
             v.push((format!("c10-trace-{}", i), crate::checks::c10::render(&tr)));
         }
     }
+    // a definitions block that is read twice (the same constants defined alike twice, by name
+    // and by function), and a small device filled to the last word where the last words come
+    // from a macro: programs in which layout and spelling can matter where they must not
+    v.push((
+        "x-definitions-read-twice".to_string(),
+        ".equ io_base_q = 0x20\n.equ port_q = io_base_q + 0x18\n.equ lo_q = low(port_q * 4)\n.equ io_base_q = 0x20\n.equ port_q = io_base_q + 0x18\n.equ lo_q = low(port_q * 4)\nldi r16, port_q\nldi r17, lo_q\n".to_string(),
+    ));
+    {
+        let mut s = String::from(".device ATtiny13\n.macro two_q\nldi r16, 1\nldi r17, 2\n.endm\n.macro one_q\ninc r16\n.endm\n");
+        for _ in 0..63 {
+            s.push_str("nop\nnop\nnop\nnop\nnop\nnop\nnop\nnop\n");
+        }
+        s.push_str("nop\nnop\nnop\ntwo_q\none_q\ntwo_q\n");
+        v.push(("x-device-filled-to-the-last-word-with-macros".to_string(), s));
+    }
     v
 }
 
